@@ -63,6 +63,7 @@ class Env:
         self.logl = []
         self.weird = []          # anything the encoding cannot express
         self.struct = []
+        self.chain_bad = []
 
     # ---- values
     def dec(self, v):
@@ -72,17 +73,22 @@ class Env:
         if k == 'str': return 'v%d' % v[1]
         if k == 'hang': return 'hang'
         if k == 'unbound': return FlowVar._UNBOUND
+        if k == 'float': return float(v[1])
+        if k == 'bool': return bool(v[1])
+        if k == 'estr': return ''
+        if k == 'elist': return []
         raise ValueError(v)
 
     def enc(self, x):
         if x is None: return [0]
-        if isinstance(x, bool):
-            self.weird.append('bool value'); return [98]
-        if isinstance(x, int): return [1, x]
-        if isinstance(x, float):
+        if type(x) is bool: return [6, int(x)]
+        if type(x) is int: return [1, x]
+        if type(x) is float:                      # type tags kept: 0.0 is not 0
             fr = Fraction(x)
-            if fr.denominator == 1: return [1, int(fr)]
+            if fr.denominator == 1: return [7, int(fr)]
             self.weird.append('non-integral float'); return [98]
+        if type(x) is str and x == '': return [8]
+        if type(x) is list and x == []: return [9]
         if x == 'hang': return [3]
         if isinstance(x, str) and x[:1] == 'v' and x[1:].lstrip('-').isdigit(): return [2, int(x[1:])]
         if isinstance(x, tuple) and len(x) == 2 and isinstance(x[0], Routine) and x[1] is clk.SystemClock: return [4]
@@ -99,9 +105,39 @@ class Env:
             return [{'stop': 1, 'pause': 2, 'resume': 3, 'reset': 4, 'play': 5}[k], c[1]]
         if k == 'signal': return [6, c[1]]
         if k == 'unhang': return [7, c[1]]
-        if k == 'settest': return [8, c[1], 1 if c[2] else 0]
+        if k == 'settest': return [8, c[1], self.test_code(c[2])]
         if k == 'flowset': return [9, c[1]] + self.enc(self.dec(c[2]))
         raise ValueError(c)
+
+    # ---- what is assigned to cond.test: any object / callable; the model sees its truth value or "raises"
+    TESTS = {'true': True, 'false': False, '0': 0, '1': 1, '0.0': 0.0, '[]': [], '[0]': [0], "''": '', "'x'": 'x', 'none': None}
+
+    def test_obj(self, t):
+        if isinstance(t, bool): return t
+        if t == 'err':
+            def raising(): raise UserError()
+            return raising
+        if t == 'errbase':
+            def raising_base(): raise UserBase()
+            return raising_base
+        if t.startswith('fn_'):
+            v = self.TESTS[t[3:]]
+            return lambda: v
+        return self.TESTS[t]
+
+    def test_code(self, t):
+        if isinstance(t, bool): return int(t)
+        if t == 'err': return 2
+        if t == 'errbase': return 3
+        return 1 if self.TESTS[t[3:] if t.startswith('fn_') else t] else 0
+
+    def cell_test_code(self, x):
+        try:
+            return 1 if x.test else 0
+        except UserError:
+            return 2
+        except UserBase:
+            return 3
 
     def cond_of(self, c):
         x = self.cells[c]
@@ -119,7 +155,7 @@ class Env:
         if k == 'signal': return self.cond_of(c[1]).signal()
         if k == 'unhang': return self.cond_of(c[1]).unhang()
         if k == 'settest':
-            self.cells[c[1]].test = bool(c[2]); return None
+            self.cells[c[1]].test = self.test_obj(c[2]); return None
         if k == 'flowset':
             self.cells[c[1]].value = self.dec(c[2]); return None
         raise ValueError(c)
@@ -148,6 +184,12 @@ class Env:
                 return True
             if k == 'log':
                 me = env.routines[i]
+                # main.current_tt versus the parent chain: from the current thread the parents lead to main_tt
+                t, n = main.current_tt, 0
+                while t is not None and t is not main.main_tt and n < 50:
+                    t, n = t.parent, n + 1
+                if t is not main.main_tt:
+                    env.chain_bad.append('body of routine %d: the parent chain of main.current_tt does not end in main_tt' % i)
                 env.log(i, [2] + env.enc(env.dec(a[1])) + [1 if main.current_tt is me else 0,
                                                             me.state.value - 1, env.num(me._m_seconds)])
                 return True
@@ -231,7 +273,7 @@ class Env:
     def snapshot(self):
         out = [self.tid(main.current_tt), self.num(main.main_tt._m_seconds), 0]
         for r in self.routines:
-            out += [r.state.value - 1, 0 if r._iterator is None else 1] + self.enc(r._last_value)
+            out += [r.state.value - 1, 0 if r._iterator is None else 1, self.num(r._m_seconds), self.tid(r.parent)] + self.enc(r._last_value)
             out += [0] if r._terminal_value is Routine._SENTINEL else [1] + self.enc(r._terminal_value)
         q = [e for e in main._clock_scheduler.queue._queue if e[-1] is not type(main._clock_scheduler.queue)._REMOVED]
         q.sort(key=lambda e: (e[0], e[1]))
@@ -243,7 +285,7 @@ class Env:
                 out += [1, 0] if x._value is FlowVar._UNBOUND else [1, 1] + self.enc(x._value)
                 wt = x.condition._waiting_threads
             else:
-                out += [0, 1 if x._test else 0]
+                out += [0, self.cell_test_code(x)]
                 wt = x._waiting_threads
             out += [len(wt)] + [self.tid(t) - 1 for t in wt]
         return out
@@ -259,12 +301,15 @@ class Env:
                               'value': None if x._value is FlowVar._UNBOUND else self.enc(x._value),
                               'waiting': [self.tid(t) - 1 for t in x.condition._waiting_threads]})
             else:
-                cells.append({'flow': False, 'test': bool(x._test), 'value': None,
+                cells.append({'flow': False, 'test': self.cell_test_code(x), 'value': None,
                               'waiting': [self.tid(t) - 1 for t in x._waiting_threads]})
         return {'out': self.enc_out(o), 'cur': self.tid(main.current_tt),
                 'main_secs': self.num(main.main_tt._m_seconds),
                 'states': [r.state.value - 1 for r in self.routines],
                 'fresh': [r._iterator is None for r in self.routines],
+                'parents': [self.tid(r.parent) for r in self.routines],
+                'lastv': [self.enc(r._last_value) for r in self.routines],
+                'terms': [None if r._terminal_value is Routine._SENTINEL else self.enc(r._terminal_value) for r in self.routines],
                 'queue': [[self.num(e[0]), self.tid(e[2].task) - 1] for e in q],
                 'cells': cells, 'loglen': len(self.logl)}
 
@@ -344,6 +389,39 @@ class Env:
         return obs
 
 
+def probes():
+    """aliasing laws checked directly (class: shared mutable state)"""
+    bad = []
+    main.reset(); main.current_tt = main.main_tt
+
+    def gen():
+        yield 1
+        yield 2
+        yield 3
+    a, b = Routine(gen), Routine(gen)          # ONE generator function object, two routines
+    got = [a.next(), b.next(), a.next(), a.next(), b.next()]
+    if got != [1, 1, 2, 3, 2]:
+        bad.append('two routines over one generator function share a position: %s' % got)
+    a.reset()
+    if [a.next(), b.next()] != [1, 3]:
+        bad.append('reset of one routine disturbed another routine over the same function')
+    b.stop()
+    if a.state.name != 'Suspended' or a.next() != 2:
+        bad.append('stop of one routine disturbed another routine over the same function')
+    c1, c2 = Condition(), Condition()           # per-instance waiting lists
+    f1, f2 = FlowVar(), FlowVar()
+    f1.value = 0
+    if f2._value is not FlowVar._UNBOUND or not f1.condition.test or f2.condition.test:
+        bad.append('FlowVar state is shared between instances or a FlowVar bound to 0 does not count as bound')
+    if c1._waiting_threads is c2._waiting_threads or f1.condition._waiting_threads is f2.condition._waiting_threads:
+        bad.append('waiting lists are shared between Condition instances')
+    r1, r2 = Routine(gen), Routine(gen)
+    if r1._terminal_value is not Routine._SENTINEL or r1._iterator is not None or r1.parent is not None:
+        bad.append('a fresh Routine is not in its initial state')
+    main.reset(); main.current_tt = main.main_tt
+    return bad
+
+
 def main_():
     cases = json.load(open(sys.argv[1]))['cases']
     out = []
@@ -353,13 +431,17 @@ def main_():
         try:
             env = Env(case)
             obs = env.run()
-            out.append({'obs': obs, 'weird': env.weird, 'struct': env.struct, 'log': env.logl,
+            out.append({'obs': obs, 'weird': env.weird, 'struct': env.struct, 'log': env.logl, 'chain_bad': env.chain_bad,
                         'recursion': RECURSION[0]})
         except BaseException as e:   # never let one case kill the run
             main.current_tt = main.main_tt
             out.append({'obs': None, 'weird': ['runner: %s: %s' % (type(e).__name__, e)], 'struct': [], 'log': []})
         sys.setrecursionlimit(lim)
-    json.dump({'out': out}, open(sys.argv[2], 'w'))
+    try:
+        pr = probes()
+    except BaseException as e:
+        pr = ['probe runner: %s: %s' % (type(e).__name__, e)]
+    json.dump({'out': out, 'probes': pr}, open(sys.argv[2], 'w'))
 
 
 main_()
